@@ -66,6 +66,7 @@ type Exec struct {
 	assignRhs map[*ssa.Function]map[token.Pos]string
 	inHook   bool
 	clauseHit map[interface{}]bool
+	extraLets map[string]Val
 	recvOk   *Term
 	allocs   []*Object
 	trustedUsed map[string]bool
@@ -761,7 +762,11 @@ func (x *Exec) Run() {
 		}
 		for _, ac := range x.c.AtCalls {
 			if !x.clauseHit[ac] {
-				x.errorf("at-call clause %s [%s] never applied on any path of %s (no matching call)", ac.Callee, ac.Pred.Label, fnDisplay(x.fn))
+				lbl := "effect"
+				if ac.Pred != nil {
+					lbl = ac.Pred.Label
+				}
+				x.errorf("at-call clause %s [%s] never applied on any path of %s (no matching call)", ac.Callee, lbl, fnDisplay(x.fn))
 			}
 		}
 	}
